@@ -12,7 +12,7 @@ Not decided: equality with a set model over operation histories.
 """
 import ast
 
-from ppsa.astutil import norm
+from ppsa.astutil import norm, dotted
 from ppsa.report import Ctx
 from ppsa.selftest import Variant, replace_once, in_function
 import rules.C22 as c22
@@ -80,11 +80,24 @@ def run(ctx):
     flagged = [n for n in ast.walk(fi.node) if isinstance(n, ast.If) and any(
         isinstance(s, ast.Assign) and "keep[" in ast.unparse(s.targets[0]) and isinstance(s.value, ast.Constant) and s.value.value is False
         for s in n.body)]
-    ok = len(flagged) == 1 and norm(flagged[0].test).replace(" ", "") in (
-        "notlen(net.group.element_index.iat[i])", "len(net.group.element_index.iat[i])==0")
+    ok = len(flagged) >= 1 and all(norm(f.test).replace(" ", "") in (
+        "notlen(net.group.element_index.iat[i])", "len(net.group.element_index.iat[i])==0") for f in flagged)
     ctx.ob(R3, f"{G}::detach_from_groups::keep-false", ok,
            "keep[i] = False exactly under 'member list empty'" if ok else
            f"group removal condition is {[norm(f.test, 80) for f in flagged]}", fi.loc(flagged[0]) if flagged else fi.loc())
+    # the emptiness test covers both kinds of groups: it is a statement of the loop over the groups, not of one branch of the
+    # reference-column distinction
+    loops = [n for n in ast.walk(fi.node) if isinstance(n, ast.For) and any(f in ast.walk(n) for f in flagged)]
+
+    def covered(sts):
+        return any(st in flagged for st in sts) or any(
+            isinstance(st, ast.If) and st not in flagged and covered(st.body) and covered(st.orelse) for st in sts)
+    scope_ok = bool(loops) and covered(loops[0].body)
+    ctx.ob(R3, f"{G}::detach_from_groups::keep-scope", scope_ok,
+           "the emptiness test runs for every touched group" if scope_ok else
+           "the emptiness test " + (f"`{norm(flagged[0].test, 60)}` " if flagged else "") + "does not run on every path through the loop over "
+           "the groups (it sits inside one branch of the index / reference-column distinction): groups of the other kind keep a row "
+           "with an empty member list", fi.loc(flagged[0]) if flagged else fi.loc())
     wb = any(isinstance(n, ast.Assign) and ast.unparse(n.targets[0]) == "net.group" and "keep" in ast.unparse(n.value)
              for n in ast.walk(fi.node))
     ctx.ob(R3, f"{G}::detach_from_groups::write-back", wb, "net.group is filtered with the keep mask", fi.loc())
@@ -96,6 +109,7 @@ def run(ctx):
     ok = any("net.group.element_type.values == element_type" in ast.unparse(n.value) for n in tc)
     ctx.ob(R3, f"{G}::detach_from_groups::type-filter", ok, "only groups of the same element type are touched", fi.loc())
     rule_group_cells(ctx)
+    rule_detach_drop(ctx)
 
 
 def rule_group_cells(ctx):
@@ -167,6 +181,48 @@ def rule_group_cells(ctx):
         ctx.fail(f"INDEX-NONE-CHECK: only {n2} tests of optional index arguments found")
 
 
+def rule_detach_drop(ctx):
+    R = "DETACH-DROP"
+    ctx.rule(R, "where a drop function detaches rows of a table from the groups and then drops rows of that table, both use the same "
+                "index expression: otherwise dropped elements stay members, or surviving elements with other indices lose membership")
+    m = ctx.repo.module("pandapower.toolbox.grid_modification")
+    n = 0
+    for fi in m.functions.values():
+        for blk in ast.walk(fi.node):
+            for fld in ("body", "orelse"):
+                sts = getattr(blk, fld, None)
+                if not isinstance(sts, list):
+                    continue
+                for pos, st in enumerate(sts):
+                    if not (isinstance(st, ast.Expr) and isinstance(st.value, ast.Call) and dotted(st.value.func) == "detach_from_groups"
+                            and len(st.value.args) >= 3):
+                        continue
+                    tab, idx = norm(st.value.args[1]), norm(st.value.args[2])
+                    for nx in sts[pos + 1:]:
+                        drops = [c for c in ast.walk(nx) if isinstance(c, ast.Call) and isinstance(c.func, ast.Attribute) and c.func.attr == "drop"
+                                 and norm(c.func.value) == f"net[{tab}]" and c.args]
+                        if drops:
+                            n += 1
+                            got = norm(drops[0].args[0])
+                            ctx.ob(R, f"{m.name}::{fi.qualname}::{tab}", got == idx,
+                                   f"detach and drop of net[{tab}] use `{idx}`" if got == idx else
+                                   f"detach_from_groups(net, {tab}, {idx}) but net[{tab}].drop({got}): group membership is removed for "
+                                   f"`{idx}` while the rows `{got}` are dropped", fi.loc(st))
+                            break
+    if n < 6:
+        ctx.fail(f"DETACH-DROP: only {n} detach/drop pairs found (confirmed: 7)")
+
+
+def variants_r5(V):
+    g = "pandapower/groups.py"
+    t = "pandapower/toolbox/grid_modification.py"
+    return [
+        V("emptiness test only for index groups", g, replace_once("                    net[element_type].index)])).tolist()\n\n        if not len(net.group.element_index.iat[i]):\n            keep[i] = False\n", "                    net[element_type].index)])).tolist()\n"), "keep-false") ,
+        V("emptiness test moved into the index branch", g, lambda s: s.replace("                element_index).tolist()\n        else:", "                element_index).tolist()\n            if not len(net.group.element_index.iat[i]):\n                keep[i] = False\n        else:", 1).replace("\n        if not len(net.group.element_index.iat[i]):\n            keep[i] = False\n    net.group = net.group.loc[keep]", "\n    net.group = net.group.loc[keep]", 1), "keep-scope"),
+        V("drop_lines detaches the line indices from the switch groups", t, in_function("drop_lines", replace_once('detach_from_groups(net, "switch", i)', 'detach_from_groups(net, "switch", lines)')), "DETACH-DROP"),
+    ]
+
+
 def variants(repo):
     g = "pandapower/groups.py"
     dm = "pandapower/toolbox/data_modification.py"
@@ -181,4 +237,4 @@ def variants(repo):
         V("type filter lost", g, in_function("detach_from_groups", replace_once("    to_check &= net.group.element_type.values == element_type\n", "")), "type-filter"),
         V("reindex ignores groups of reference column", dm, in_function("reindex_elements", replace_once("net.group.reference_column.isnull().values]:", "net.group.reference_column.notnull().values]:")), "REINDEX-GROUP"),
         V("drop_trafos forgets groups", gm, in_function("drop_trafos", replace_once("    detach_from_groups(net, table, trafos)\n", "")), "CASCADE-GROUP"),
-    ]
+    ] + variants_r5(V)
